@@ -115,3 +115,68 @@ func (s *Set) Lookup(name string, req any) (registered, isCheck, accepts bool) {
 	}
 	return s.Set.Lookup(name, req)
 }
+
+// RespChanged is what a later build of the Action / Check plugin declares as its response: the fields
+// of hplug.Resp with other types, so that a stored hplug.Resp cannot be decoded into it.
+type RespChanged struct {
+	Path  int64
+	Value string
+	Items int
+}
+
+// SwitchPlugin behaves like hplug's Action / Check plugin (request hplug.Req, response hplug.Resp) until
+// Changed is set; from then on Response() is RespChanged - a restart with a changed build.
+type SwitchPlugin struct {
+	name    string
+	isCheck bool
+	mu      sync.Mutex
+	changed bool
+}
+
+func (p *SwitchPlugin) SetChanged(b bool) { p.mu.Lock(); p.changed = b; p.mu.Unlock() }
+func (p *SwitchPlugin) Name() string      { return p.name }
+func (p *SwitchPlugin) IsCheck() bool     { return p.isCheck }
+func (p *SwitchPlugin) Init() error       { return nil }
+func (p *SwitchPlugin) Request() any      { return hplug.Req{} }
+func (p *SwitchPlugin) Response() any {
+	p.mu.Lock()
+	defer p.mu.Unlock()
+	if p.changed {
+		return RespChanged{}
+	}
+	return hplug.Resp{}
+}
+func (p *SwitchPlugin) Execute(ctx context.Context, req any) (any, *plugins.Error) {
+	r, _ := req.(hplug.Req)
+	return hplug.Resp{Path: r.Path, Value: r.Arg}, nil
+}
+func (p *SwitchPlugin) ValidateReq(req any) error {
+	r, ok := req.(hplug.Req)
+	if !ok {
+		return fmt.Errorf("want Req, got %T", req)
+	}
+	if r.Bad {
+		return fmt.Errorf("request marked bad")
+	}
+	return nil
+}
+func (p *SwitchPlugin) RetryPolicy() exponential.Policy {
+	return exponential.Policy{InitialInterval: 100 * time.Microsecond, Multiplier: 1.1, RandomizationFactor: 0, MaxInterval: time.Millisecond}
+}
+
+// NewSwitchSet is NewSet with the Action and Check plugins replaced by SwitchPlugins (same names, same
+// request and - until switched - response types). The returned function switches both.
+func NewSwitchSet() (*Set, func(changed bool)) {
+	reg := registry.New()
+	act, chk := &SwitchPlugin{name: hplug.ActionName}, &SwitchPlugin{name: hplug.CheckName, isCheck: true}
+	alt := hplug.NewAlt()
+	reg.MustRegister(act)
+	reg.MustRegister(chk)
+	reg.MustRegister(alt)
+	// hplug.Set's Action / Check are used only by Lookup (what ValidateReq accepts): unregistered twins
+	h := &hplug.Set{Reg: reg, Action: hplug.NewAction(), Check: hplug.NewCheck(), Alt: alt}
+	s := &Set{Set: h, AnyAction: &AnyPlugin{name: AnyActionName}, AnyCheck: &AnyPlugin{name: AnyCheckName, isCheck: true}}
+	reg.MustRegister(s.AnyAction)
+	reg.MustRegister(s.AnyCheck)
+	return s, func(changed bool) { act.SetChanged(changed); chk.SetChanged(changed) }
+}
